@@ -42,6 +42,8 @@ pub struct Plan {
     /// Some(c): the buffers are built with `IoBuffer::new(pipe, c, ALIGN)` instead of `::io(pipe, max_msg_len)`
     pub send_cap: Option<usize>,
     pub recv_cap: Option<usize>,
+    /// alignment handed to `IoBuffer::new` for explicit buffers (a multiple of M::ALIGN)
+    pub buf_align: usize,
     /// values whose fresh emplacement did not validate in its own buffer (value, size())
     #[serde(skip)]
     pub anomalies: Vec<(Val, usize)>,
@@ -196,7 +198,9 @@ pub fn make_plan_opt<M: ZooMsg + ?Sized>(d: &mut Decider, stats: &mut Stats, nsp
             let mp = MsgPlan { val: Val::I(0), use_default: true, manual_init: false, expect_val: Val::I(0), tweaks: vec![], len: 0, pad_start: 0 };
             if let Ok(Ok((size, true, v))) = guarded(|| build_in::<M>(&mut scratch_store[..cap], &mp)) {
                 if size <= max_send {
-                    chosen = Some((MsgPlan { val: v.clone(), expect_val: v, ..mp }, size));
+                    // the documented default state, where the adapter states it
+                    let want = M::default_val().unwrap_or_else(|| v.clone());
+                    chosen = Some((MsgPlan { val: v, expect_val: want, ..mp }, size));
                 }
             }
         }
@@ -240,7 +244,10 @@ pub fn make_plan_opt<M: ZooMsg + ?Sized>(d: &mut Decider, stats: &mut Stats, nsp
                 // fall back to the default value (always fits by construction of max_send)
                 let mp = MsgPlan { val: Val::I(0), use_default: true, manual_init: false, expect_val: Val::I(0), tweaks: vec![], len: 0, pad_start: 0 };
                 match guarded(|| build_in::<M>(&mut scratch_store[..cap], &mp)) {
-                    Ok(Ok((size, true, v))) => (MsgPlan { val: v.clone(), expect_val: v, ..mp }, size),
+                    Ok(Ok((size, true, v))) => {
+                        let want = M::default_val().unwrap_or_else(|| v.clone());
+                        (MsgPlan { val: v, expect_val: want, ..mp }, size)
+                    }
                     _ => continue,
                 }
             }
@@ -305,8 +312,9 @@ pub fn make_plan_opt<M: ZooMsg + ?Sized>(d: &mut Decider, stats: &mut Stats, nsp
     let rx = [0usize, 1, M::ALIGN, longest, 3, 100];
     let max_recv = longest + rx[d.weighted(St::Cfg, &[4, 2, 2, 2, 1, 1])];
     let retain_p = [0u32, 1, 3][d.weighted(St::Cfg, &[3, 1, 1])];
+    let buf_align = if explicit { M::ALIGN * [1usize, 1, 2, 4][d.weighted(St::Cfg, &[4, 2, 1, 1])] } else { M::ALIGN };
     let recv_cap = if explicit { Some(longest.max(M::MIN_SIZE) + [0usize, 1, M::ALIGN, 7, longest][d.weighted(St::Cfg, &[4, 1, 2, 1, 1])]) } else { None };
-    Plan { type_name: M::name(), align: M::ALIGN, min_size: M::MIN_SIZE, msgs, max_send, max_recv, retain_p, send_buf_len: cap, bmode, send_cap, recv_cap, anomalies }
+    Plan { type_name: M::name(), align: M::ALIGN, min_size: M::MIN_SIZE, msgs, max_send, max_recv, retain_p, send_buf_len: cap, bmode, send_cap, recv_cap, buf_align, anomalies }
 }
 
 /// What the harness does after a failed `send()` / `recv()` (seeded policy).
@@ -326,7 +334,7 @@ fn err_kind_name(e: &std::io::Error) -> String {
 pub fn sender_blocking<M: ZooMsg + ?Sized>(sh: Shared, plan: Arc<Plan>) {
     let r = guarded(|| {
         let mut sender = match plan.send_cap {
-            Some(c) => Sender::<M, _>::new(flatty_io::IoBuffer::new(SimWriter::new(sh.clone()), c, M::ALIGN)),
+            Some(c) => Sender::<M, _>::new(flatty_io::IoBuffer::new(SimWriter::new(sh.clone()), c, plan.buf_align)),
             None => Sender::<M, _>::io(SimWriter::new(sh.clone()), plan.max_send),
         };
         let mut i = 0usize;
@@ -439,7 +447,7 @@ fn inspect<M: ZooMsg + ?Sized>(m: &M) -> Result<(usize, usize, Val, bool, Option
 pub fn receiver_blocking<M: ZooMsg + ?Sized>(sh: Shared, plan: Arc<Plan>) {
     let r = guarded(|| {
         let mut rx = match plan.recv_cap {
-            Some(c) => Receiver::<M, _>::new(flatty_io::IoBuffer::new(SimReader::new(sh.clone()), c, M::ALIGN)),
+            Some(c) => Receiver::<M, _>::new(flatty_io::IoBuffer::new(SimReader::new(sh.clone()), c, plan.buf_align)),
             None => Receiver::<M, _>::io(SimReader::new(sh.clone()), plan.max_recv),
         };
         let mut retries = 0u32;
@@ -562,7 +570,7 @@ pub fn receiver_blocking<M: ZooMsg + ?Sized>(sh: Shared, plan: Arc<Plan>) {
 
 pub async fn sender_async<M: ZooMsg + ?Sized>(sh: Shared, plan: Arc<Plan>) {
     let mut sender = match plan.send_cap {
-        Some(c) => AsyncSender::<M, _>::new(flatty_io::IoBuffer::new(SimAsyncWriter::new(sh.clone()), c, M::ALIGN)),
+        Some(c) => AsyncSender::<M, _>::new(flatty_io::IoBuffer::new(SimAsyncWriter::new(sh.clone()), c, plan.buf_align)),
         None => AsyncSender::<M, _>::io(SimAsyncWriter::new(sh.clone()), plan.max_send),
     };
     let mut i = 0usize;
@@ -644,7 +652,7 @@ pub async fn sender_async<M: ZooMsg + ?Sized>(sh: Shared, plan: Arc<Plan>) {
 
 pub async fn receiver_async<M: ZooMsg + ?Sized>(sh: Shared, plan: Arc<Plan>) {
     let mut rx = match plan.recv_cap {
-        Some(c) => AsyncReceiver::<M, _>::new(flatty_io::IoBuffer::new(SimAsyncReader::new(sh.clone()), c, M::ALIGN)),
+        Some(c) => AsyncReceiver::<M, _>::new(flatty_io::IoBuffer::new(SimAsyncReader::new(sh.clone()), c, plan.buf_align)),
         None => AsyncReceiver::<M, _>::io(SimAsyncReader::new(sh.clone()), plan.max_recv),
     };
     let mut retries = 0u32;
